@@ -5,14 +5,18 @@ set_option linter.unusedSimpArgs false
 namespace GrVerif.Action
 open GrVerif.Vm GrVerif.Seg GrVerif.Gen.Vm
 
-theorem J.same {c c' : Ctx} {l : List Nat} (h : J c l) (hs : StreamSame c.seg c'.seg) (hi : c'.is = c.is) : J c' l :=
-  ⟨h.linked.same hs, h.clean.same hs, by rw [hi]; exact h.isok.same hs⟩
+theorem J.same {c c' : Ctx} {l : List Nat} (h : J c l) (hs : StreamSame c.seg c'.seg) (hi : c'.is = c.is)
+    (hh : c'.highwater = c.highwater := by rfl) : J c' l :=
+  ⟨h.linked.same hs, h.clean.same hs, by rw [hi]; exact h.isok.same hs, by rw [hh]; exact h.hw⟩
+
+theorem slotat_highwater (c : Ctx) (x : Int) : (slotat c x).2.highwater = c.highwater := by
+  unfold slotat; simp only []; split <;> rfl
 
 /-- a live current slot is in the stream -/
 theorem J.is_mem {c : Ctx} {l : List Nat} (h : J c l) {i : Nat} (hi : c.is = some i) (hd : ¬ (c.seg.get i).deleted = true) : i ∈ l := by
   have hio := h.isok
   rw [hi] at hio
-  rcases hio with h0 | ⟨i', h1, h2⟩ | ⟨d, h1, h2, h3, h4⟩
+  rcases hio with h0 | ⟨i', h1, h2⟩ | ⟨d, h1, h2, h3, h4, h5⟩
   · cases h0
   · cases h1; exact h2
   · cases h1; exact absurd h3 hd
@@ -75,7 +79,7 @@ theorem putCopy_PS (c : Ctx) (r : Int) (h : PS c) : OutcomeP PS (opPutCopy c r) 
       simp only []
       have hseg : (slotat c r).2.seg = c.seg := slotat_seg c r
       have hiss : (slotat c r).2.is = c.is := slotat_is c r
-      have hj' : J (slotat c r).2 l := ⟨by rw [hseg]; exact hj.linked, by rw [hseg]; exact hj.clean, by rw [hseg, hiss]; exact hj.isok⟩
+      have hj' : J (slotat c r).2 l := ⟨by rw [hseg]; exact hj.linked, by rw [hseg]; exact hj.clean, by rw [hseg, hiss]; exact hj.isok, by rw [slotat_highwater]; exact hj.hw⟩
       split
       · split
         · split
@@ -85,8 +89,9 @@ theorem putCopy_PS (c : Ctx) (r : Int) (h : PS c) : OutcomeP PS (opPutCopy c r) 
       · exact ⟨l, hj'.same (by simp only [withSeg_seg]; rw [hseg]; exact unmark_streamSame hlive.1 hlive.2) rfl⟩
 
 theorem assocFold_same (c0 : Ctx) : ∀ (refs : List Int) (acc : Int × Int × Ctx),
-    (acc.2.2.seg = c0.seg ∧ acc.2.2.is = c0.is) →
-    ((refs.foldl assocStep acc).2.2.seg = c0.seg ∧ (refs.foldl assocStep acc).2.2.is = c0.is) := by
+    (acc.2.2.seg = c0.seg ∧ acc.2.2.is = c0.is ∧ acc.2.2.highwater = c0.highwater) →
+    ((refs.foldl assocStep acc).2.2.seg = c0.seg ∧ (refs.foldl assocStep acc).2.2.is = c0.is ∧
+      (refs.foldl assocStep acc).2.2.highwater = c0.highwater) := by
   intro refs
   induction refs with
   | nil => intro acc hs; exact hs
@@ -96,15 +101,15 @@ theorem assocFold_same (c0 : Ctx) : ∀ (refs : List Int) (acc : Int × Int × C
     unfold assocStep
     simp only []
     split
-    · exact ⟨by rw [slotat_seg]; exact hs.1, by rw [slotat_is]; exact hs.2⟩
-    · exact ⟨by rw [slotat_seg]; exact hs.1, by rw [slotat_is]; exact hs.2⟩
+    · exact ⟨by rw [slotat_seg]; exact hs.1, by rw [slotat_is]; exact hs.2.1, by rw [slotat_highwater]; exact hs.2.2⟩
+    · exact ⟨by rw [slotat_seg]; exact hs.1, by rw [slotat_is]; exact hs.2.1, by rw [slotat_highwater]; exact hs.2.2⟩
 
 theorem assoc_PS (c : Ctx) (rs : List Int) (h : PS c) : OutcomeP PS (opAssoc c rs) := by
   unfold opAssoc
   simp only []
-  obtain ⟨e1, e2⟩ := assocFold_same c rs (-1, -1, c) ⟨rfl, rfl⟩
+  obtain ⟨e1, e2, e3⟩ := assocFold_same c rs (-1, -1, c) ⟨rfl, rfl, rfl⟩
   obtain ⟨l, hj⟩ := h
-  have hj' : J (rs.foldl assocStep (-1, -1, c)).2.2 l := ⟨by rw [e1]; exact hj.linked, by rw [e1]; exact hj.clean, by rw [e1, e2]; exact hj.isok⟩
+  have hj' : J (rs.foldl assocStep (-1, -1, c)).2.2 l := ⟨by rw [e1]; exact hj.linked, by rw [e1]; exact hj.clean, by rw [e1, e2]; exact hj.isok, by rw [e3]; exact hj.hw⟩
   split
   · split
     · exact ⟨l, hj'.same (by simp only [withSeg_seg]; exact StreamSame.upd _ _ _ (fun _ => ⟨rfl, rfl, rfl, rfl⟩)) rfl⟩
@@ -120,13 +125,22 @@ theorem setAttTo_is (c : Ctx) (i sub : Nat) (v : Int) : (setAttTo c i sub v).is 
     · split <;> rfl
   · rfl
 
+theorem setAttTo_highwater (c : Ctx) (i sub : Nat) (v : Int) : (setAttTo c i sub v).highwater = c.highwater := by
+  unfold setAttTo
+  simp only []
+  split
+  · split
+    · rfl
+    · split <;> rfl
+  · rfl
+
 theorem attrSet_PS (c : Ctx) (a b : Nat) (v : Int) (h : PS c) : OutcomeP PS (opAttrSet c a b v) := by
   unfold opAttrSet
   split
   · trivial
   · split
     · obtain ⟨l, hj⟩ := h
-      exact ⟨l, hj.same (StreamSame.ofSameT (setAttTo_same _ _ _ _)) (setAttTo_is _ _ _ _)⟩
+      exact ⟨l, hj.same (StreamSame.ofSameT (setAttTo_same _ _ _ _)) (setAttTo_is _ _ _ _) (setAttTo_highwater _ _ _ _)⟩
     · simp only []
       obtain ⟨l, hj⟩ := h
       split <;> first
@@ -140,7 +154,7 @@ theorem tempCopy_PS (c : Ctx) (h : PS c) : OutcomeP PS (opTempCopy c) := by
     obtain ⟨l, hj⟩ := h
     obtain ⟨l1, i1, hkl, hks, hkf, hkp, hkd, hkc, c1⟩ := newSlot_spec hj.linked hj.clean hj.isok heq
     split
-    · refine ⟨l, ⟨?_, ?_, ?_⟩⟩
+    · refine ⟨l, ⟨?_, ?_, ?_, by simpa using hj.hw⟩⟩
       · simp only [setCell_seg, withSeg_seg]
         exact ⟨l1.nodup, fun x hx => by simpa using l1.inb x hx, l1.first, l1.last, chain_upd_notin k _ hkl l1.chain⟩
       · simp only [setCell_seg, withSeg_seg]
@@ -148,17 +162,17 @@ theorem tempCopy_PS (c : Ctx) (h : PS c) : OutcomeP PS (opTempCopy c) := by
         · rw [get_upd_ne _ _ _ _ (fun hh => hkl (by rw [← hh]; exact hj'))]; exact c1.live j hj'
         · rw [get_upd_ne _ _ _ _ (fun hh => hkf (by rw [← hh]; exact hf))]; exact c1.freeClean f hf
       · simp only [setCell_seg, withSeg_seg, setCell_is, withSeg_is]
-        rcases i1 with h0 | h0 | ⟨d, h1, h2, h3, h4⟩
+        rcases i1 with h0 | h0 | ⟨d, h1, h2, h3, h4, h5⟩
         · exact .inl h0
         · exact .inr (.inl h0)
         · have hdk : d ≠ k := fun hh => by rw [hh, hkd] at h3; cases h3
-          exact .inr (.inr ⟨d, h1, h2, by rw [get_upd_ne _ _ _ _ hdk]; exact h3, by rw [get_upd_ne _ _ _ _ hdk]; exact h4⟩)
+          exact .inr (.inr ⟨d, h1, h2, by rw [get_upd_ne _ _ _ _ hdk]; exact h3, by rw [get_upd_ne _ _ _ _ hdk]; exact h4, by rw [get_upd_ne _ _ _ _ hdk]; exact h5⟩)
     · trivial
   · exact die_PS c h
 
 theorem slotat_PS (c : Ctx) (x : Int) (h : PS c) : PS (slotat c x).2 := by
   obtain ⟨l, hj⟩ := h
-  exact ⟨l, ⟨by rw [slotat_seg]; exact hj.linked, by rw [slotat_seg]; exact hj.clean, by rw [slotat_seg, slotat_is]; exact hj.isok⟩⟩
+  exact ⟨l, ⟨by rw [slotat_seg]; exact hj.linked, by rw [slotat_seg]; exact hj.clean, by rw [slotat_seg, slotat_is]; exact hj.isok, by rw [slotat_highwater]; exact hj.hw⟩⟩
 
 theorem putGlyph_PS (c : Ctx) (k : Nat) (h : PS c) : OutcomeP PS (opPutGlyph c k) := by
   unfold opPutGlyph
